@@ -596,6 +596,8 @@ def dress(model, rng, *, time=None, depth=None, band=None, per_kind=(1, 2), miss
     if time:
         tname, tdim = naming['time']
         model.time = time_axis(rng, name=tname, dim=tdim)
+        # a CF bounds variable of the time coordinate (means over an interval), listed before or after the coordinate
+        model.time['bounds'] = pick(rng, [None, None, None, 'first', 'last'])
         extras.append((tdim, model.time['size']))
     if depth:
         dname, ddim = naming['depth']
